@@ -495,6 +495,40 @@ class Evaluator:
                 return name, self.ev(v.args[1], env)
         return None
 
+    def _reduction_helper(self, call_func: ast.AST, env) -> Optional["EP"]:
+        """period P when the named repository function is `x -> x % P` (possibly only for numbers: `x % P if isinstance(x, ...)
+        else x`, or under an `if isinstance(...)`), else None"""
+        probe = ast.Call(func=call_func, args=[], keywords=[])
+        r = self.resolve(probe) if isinstance(call_func, (ast.Name, ast.Attribute)) else None
+        if r is None:
+            return None
+        fn = r[0]
+        ps = [a.arg for a in fn.args.args]
+        if len(ps) != 1:
+            return None
+        x = ps[0]
+        body = strip_docstring(fn.body)
+
+        def mod_of(e):
+            if isinstance(e, ast.IfExp) and "isinstance" in norm(e.test):
+                a, b = mod_of(e.body), mod_of(e.orelse)
+                if a is not None and norm(e.orelse) == x:
+                    return a
+                if b is not None and norm(e.body) == x:
+                    return b
+                return None
+            if isinstance(e, ast.BinOp) and isinstance(e.op, ast.Mod) and norm(e.left) == x:
+                return self.ev(e.right, {})
+            if isinstance(e, ast.Call) and (dotted(e.func) or "").split(".")[-1] in ("remainder", "fmod", "mod") and len(e.args) == 2 and norm(e.args[0]) == x:
+                return self.ev(e.args[1], {})
+            return None
+
+        if len(body) == 1 and isinstance(body[0], ast.Return) and body[0].value is not None:
+            return mod_of(body[0].value)
+        if len(body) == 2 and isinstance(body[0], ast.If) and "isinstance" in norm(body[0].test) and len(body[0].body) == 1 and isinstance(body[0].body[0], ast.Return) and isinstance(body[1], ast.Return) and norm(body[1].value) == x:
+            return mod_of(body[0].body[0].value)
+        return None
+
     def run(self, func: ast.AST, args: Sequence[Value]) -> Value:
         a = func.args
         if a.vararg or a.kwarg or a.kwonlyargs:
@@ -511,6 +545,17 @@ class Evaluator:
                 if isinstance(stmt, (ast.Assign, ast.AugAssign)) and (stmt.targets[0].id if isinstance(stmt, ast.Assign) and len(stmt.targets) == 1 and isinstance(stmt.targets[0], ast.Name) else getattr(getattr(stmt, "target", None), "id", None)) in names and self._reduction(stmt, env) is not None:
                     name, period = self._reduction(stmt, env)
                     self.reductions.append((func.name, name, period))
+                    continue
+                if isinstance(stmt, ast.Assign) and len(stmt.targets) == 1 and isinstance(stmt.targets[0], ast.Tuple) and isinstance(stmt.value, ast.Call) and dotted(stmt.value.func) == "map" and len(stmt.value.args) == 2 and isinstance(stmt.value.args[1], (ast.Tuple, ast.List)) and [norm(t) for t in stmt.targets[0].elts] == [norm(a) for a in stmt.value.args[1].elts] and all(norm(t) in names for t in stmt.targets[0].elts):
+                    # `a, b = map(helper, (a, b))` with helper = x -> x % P: a pre-reduction of every listed parameter
+                    period = self._reduction_helper(stmt.value.args[0], env)
+                    if period is None:
+                        raise Undecided(f"parameters are rewritten by {short(stmt.value, 60)} before the matrix is built")
+                    for t in stmt.targets[0].elts:
+                        self.reductions.append((func.name, norm(t), period))
+                    continue
+                if isinstance(stmt, ast.Assign) and len(stmt.targets) == 1 and isinstance(stmt.targets[0], ast.Name) and stmt.targets[0].id in names and isinstance(stmt.value, ast.Call) and len(stmt.value.args) == 1 and norm(stmt.value.args[0]) == stmt.targets[0].id and self._reduction_helper(stmt.value.func, env) is not None:
+                    self.reductions.append((func.name, stmt.targets[0].id, self._reduction_helper(stmt.value.func, env)))
                     continue
                 if isinstance(stmt, ast.Assign) and len(stmt.targets) == 1 and isinstance(stmt.targets[0], ast.Name):
                     env[stmt.targets[0].id] = self.ev(stmt.value, env)
